@@ -701,10 +701,135 @@ def check_C20(tier, seed):
     floor(rp, "m_alloc-resolved", 10, "natvis m_alloc path resolved on a stateful allocator")
     return rp.finish()
 
+def check_C17(tier, seed):
+    rp = Report("C17", tier, seed, "exploration")
+    rp.rule = ("differential over builds: one portable C++11-subset corpus (seed-derived histories over int / trivially copyable struct / tracked non-trivial type, std::allocator and three ledger-allocator trait "
+               "configurations incl. an 8-bit size_type that reaches length_error, cross-capacity copy/move/swap/append, comparisons, at() out_of_range, plus a 'converting' family that feeds other integral, enum and "
+               "pointer types through raw pointers, std::vector and small_vector iterators) prints one digest per history over its full observation trace (op, exception kind, returned offset, size, capacity, inlined, every element); "
+               "the digests of every build must be identical; builds = g++ x {c++11,14,17,20,23} and clang++ x {c++11,14,17,20}, with and without GCH_DISABLE_CONCEPTS for >= C++20; "
+               "a build that rejects the corpus is a violation; tuple = (history id, family)")
+    rp.assumptions = ["clang++ -std=c++2b is excluded: Clang 14 + libstdc++ 12 evaluate std::is_constant_evaluated() to true at run time (toolchain defect, DESIGN.md 2.4)",
+                      "MSVC / libc++ are not available"]
+    builds = []
+    if tier == "quick":
+        builds = [("g++", "c++11", 0), ("g++", "c++17", 0), ("g++", "c++20", 0), ("g++", "c++20", 1), ("clang++", "c++14", 0), ("clang++", "c++20", 0), ("g++", "c++23", 0)]
+    else:
+        for std in ("c++11", "c++14", "c++17", "c++20", "c++23"):
+            builds.append(("g++", std, 0))
+        for std in ("c++11", "c++14", "c++17", "c++20"):
+            builds.append(("clang++", std, 0))
+        builds += [("g++", "c++20", 1), ("g++", "c++23", 1), ("clang++", "c++20", 1)]
+    cases = 120 if tier == "quick" else 3000
+    nsh = 1 if tier == "quick" else 4
+    names = ["%s/%s%s" % (cc, std, "/noconcepts" if nc else "") for cc, std, nc in builds]
+    # (a) per-feature acceptance probes: every build must accept what any other build accepts
+    FEATURES = {1: "same-width integral sources through raw pointers / std::vector iterators", 2: "same-width integral sources through small_vector iterators",
+                3: "different-width integral / enum sources", 4: "pointer conversions through raw pointers / std::vector iterators", 5: "pointer conversions through small_vector iterators"}
+    pspecs, pidx = [], []
+    for bi, (cc, std, nc) in enumerate(builds):
+        for f in FEATURES:
+            d = {"XSTD_PROBE_ONLY": None}
+            for g in FEATURES:
+                if g != f:
+                    d["XSTD_NO_F%d" % g] = None
+            if nc:
+                d["GCH_DISABLE_CONCEPTS"] = None
+            pspecs.append({"src": "xstd.cpp", "cc": cc, "flags": ["-std=" + std, "-O0", "-fsyntax-only"], "defines": d, "name": "probe.o", "link": False})
+            pidx.append((bi, f))
+    t0 = time.time()
+    pres = build_many(pspecs)
+    log("[C17] compiled %d acceptance probes in %.1fs" % (len(pres), time.time() - t0))
+    accepted = {f: {} for f in FEATURES}
+    for (bi, f), r in zip(pidx, pres):
+        accepted[f][bi] = not isinstance(r, BuildError)
+        if isinstance(r, BuildError):
+            accepted[f][("diag", bi)] = r.diag
+    disabled = []
+    for f, per in accepted.items():
+        ok = [bi for bi in range(len(builds)) if per.get(bi)]
+        bad = [bi for bi in range(len(builds)) if not per.get(bi)]
+        rp.coverage["counters"]["probes-compiled"] = rp.coverage["counters"].get("probes-compiled", 0) + len(ok) + len(bad)
+        if bad:
+            disabled.append(f)
+        if ok and bad:
+            for bi in bad:
+                rp.add_violation("xstd|C17|feature-rejected|F%d|%s" % (f, names[bi]),
+                                 "%s: accepted by %s but rejected by %s: %s" % (FEATURES[f], ", ".join(names[b] for b in ok[:4]), names[bi], per[("diag", bi)][-1200:]),
+                                 {"engine": "xstd", "replay_cmd": ["false"], "feature": f, "build": names[bi]})
+    rp.extra["features_rejected_by_some_build"] = disabled
+    specs = []
+    for cc, std, noconcepts in builds:
+        fl = ["-std=" + std, "-O1", "-g1"] + (["-fsanitize=address,undefined", "-fno-sanitize-recover=all"] if tier != "quick" or std in ("c++11", "c++20") else [])
+        if cc == "clang++" and "-fsanitize=address,undefined" in fl:
+            fl.append("-fno-sanitize=object-size")
+        dd = {"XSTD_NO_F%d" % f: None for f in disabled}
+        if noconcepts:
+            dd["GCH_DISABLE_CONCEPTS"] = None
+        specs.append({"src": "xstd.cpp", "cc": cc, "flags": fl, "defines": dd, "name": "xstd"})
+    t0 = time.time()
+    bins = build_many(specs)
+    log("[C17] built %d corpus binaries in %.1fs" % (len(bins), time.time() - t0))
+    cmds, idx = [], []
+    for bi, b in enumerate(bins):
+        if isinstance(b, BuildError):
+            rp.add_violation("xstd|C17|corpus-rejected|%s" % names[bi], "build %s rejects the corpus that other builds accept: %s" % (names[bi], b.diag[-2500:]),
+                             {"engine": "xstd", "replay_cmd": ["false"], "build": names[bi]})
+            continue
+        for sh in range(nsh):
+            cmds.append([b, "--seed", str(seed + sh * 7919), "--cases", str(cases // nsh), "--len", "50"])
+            idx.append((bi, sh))
+    results = run_many(cmds, timeout=3000)
+    table = {}   # (shard, id) -> {build: digest}
+    fam = {}
+    for (bi, sh), res in zip(idx, results):
+        if res["rc"] != 0 or res["timeout"]:
+            rp.add_violation("xstd|C17|corpus-died|%s" % names[bi], "corpus run died under build %s (rc %s): %s" % (names[bi], res["rc"], svlib.san_summary(res["err"])),
+                             {"engine": "xstd", "replay_cmd": res["cmd"]})
+            continue
+        for line in res["out"].splitlines():
+            if line.startswith('{"type":"digest"'):
+                d = json.loads(line)
+                table.setdefault((sh, d["id"]), {})[bi] = d["h"]
+                fam[(sh, d["id"])] = d["family"]
+    n_hist = 0
+    for key, per in sorted(table.items()):
+        n_hist += 1
+        rp.coverage["tuples"]["%s|%s" % (fam[key], key[1])] = 1
+        vals = set(per.values())
+        if len(vals) > 1 and rp.coverage["counters"].get("mismatching-histories", 0) >= 6:
+            rp.coverage["counters"]["mismatching-histories"] += 1
+            rp.add_violation("xstd|C17|digest-mismatch|%s" % fam[key], "history %s (%s) behaves differently across builds (trace omitted: more than 6 mismatches)" % (key[1], fam[key]),
+                             {"engine": "xstd", "replay_cmd": ["false"]})
+        elif len(vals) > 1:
+            rp.coverage["counters"]["mismatching-histories"] = rp.coverage["counters"].get("mismatching-histories", 0) + 1
+            # pick two disagreeing builds and show the first differing trace line
+            ref = min(per)
+            other = next(b for b in per if per[b] != per[ref])
+            sh = key[0]
+            t1 = svlib.run_proc([bins[ref], "--seed", str(seed + sh * 7919), "--cases", str(cases // nsh), "--len", "50", "--trace-history", key[1]], timeout=600)
+            t2 = svlib.run_proc([bins[other], "--seed", str(seed + sh * 7919), "--cases", str(cases // nsh), "--len", "50", "--trace-history", key[1]], timeout=600)
+            l1 = [l for l in t1["out"].splitlines() if not l.startswith("{")]
+            l2 = [l for l in t2["out"].splitlines() if not l.startswith("{")]
+            diff = next(((a, b) for a, b in zip(l1, l2) if a != b), ("?", "?"))
+            rp.add_violation("xstd|C17|digest-mismatch|%s" % fam[key],
+                             "history %s (%s) behaves differently under %s and %s; first differing trace line: [%s] vs [%s]" % (key[1], fam[key], names[ref], names[other], diff[0][:300], diff[1][:300]),
+                             {"engine": "xstd", "replay_cmd": [bins[other], "--seed", str(seed + sh * 7919), "--cases", str(cases // nsh), "--len", "50", "--trace-history", key[1]],
+                              "builds": [names[ref], names[other]]})
+        if len(per) < len([b for b in bins if not isinstance(b, BuildError)]):
+            rp.add_inconclusive("history %s missing from some builds" % (key,))
+        if n_hist % 97 == 1 and len(rp.coverage["samples"]) < 5:
+            rp.coverage["samples"].append({"history": key[1], "family": fam[key], "digest": sorted(vals)[0], "builds_agreeing": len(per)})
+    rp.coverage["evaluations"] = n_hist * len(bins)
+    rp.coverage["counters"].update({"histories": n_hist, "builds": len(bins), "digests-compared": sum(len(v) for v in table.values())})
+    rp.extra["builds"] = names
+    if n_hist < 100:
+        rp.add_inconclusive("too few histories compared (%d)" % n_hist)
+    return rp.finish()
+
 
 CHECKS = {
     "C01": check_C01, "C02": check_C02, "C03": check_C03, "C04": check_C04, "C05": check_C05, "C06": check_C06,
-    "C07": check_C07, "C09": check_C09, "C10": check_C10, "C11": check_C11, "C15": check_C15, "C12": check_C12, "C14": check_C14, "C16": check_C16, "C18": check_C18, "C19": check_C19, "C20": check_C20,
+    "C07": check_C07, "C09": check_C09, "C10": check_C10, "C11": check_C11, "C15": check_C15, "C12": check_C12, "C14": check_C14, "C16": check_C16, "C17": check_C17, "C18": check_C18, "C19": check_C19, "C20": check_C20,
 }
 
 
